@@ -54,38 +54,40 @@ class StubSim(mosaik_api_v3.Simulator):
         self.time = None
         self.finalized = 0
         self.req = 0            # number of requests received (fault addressing)
+        self.ctx = CTX
 
     # -- API ----------------------------------------------------------------
     def init(self, sid, time_resolution=1.0, spec=None):
         self.sid = sid
         self.spec = spec
+        self.ctx = CTX
         self.meta["type"] = spec["type"]
         self.meta["models"] = {"M": model_desc(spec["type"], spec.get("any_inputs", False))}
         if spec.get("set_events"):
             self.meta["set_events"] = True
-        CTX.stubs[sid] = self
+        self.ctx.stubs[sid] = self
         return self.meta
 
     def create(self, num, model, **kw):
         return [{"eid": "e", "type": model}]
 
     def setup_done(self):
-        CTX.ev("U", self.sid)
+        self.ctx.ev("U", self.sid)
         yield from self._fault_point("setup_done", 0)
-        if "setup_done" in CTX.gate_kinds and CTX.gated:
-            yield CTX.loop.gate((self.sid, "setup_done", 0))
+        if "setup_done" in self.ctx.gate_kinds and self.ctx.gated:
+            yield self.ctx.loop.gate((self.sid, "setup_done", 0))
 
     def step(self, time, inputs, max_advance):
         k = self.k
         self.k += 1
         self.time = time
         self.cur = k
-        CTX.ev("B", self.sid, k, time, json.dumps(inputs, sort_keys=True), max_advance)
+        self.ctx.ev("B", self.sid, k, time, json.dumps(inputs, sort_keys=True), max_advance)
         if self.finalized:
-            CTX.ev("X", self.sid, "request-after-finalize", "step", k)
+            self.ctx.ev("X", self.sid, "request-after-finalize", "step", k)
         yield from self._fault_point("step", k)
-        if "step" in CTX.gate_kinds and CTX.gated:
-            yield CTX.loop.gate((self.sid, "step", k))
+        if "step" in self.ctx.gate_kinds and self.ctx.gated:
+            yield self.ctx.loop.gate((self.sid, "step", k))
         sp = self.spec
         # asynchronous requests towards mosaik (C16)
         for act in (sp.get("async") or {}).get(str(k), []):
@@ -98,18 +100,18 @@ class StubSim(mosaik_api_v3.Simulator):
         bad = (sp.get("bad_next") or {}).get(str(k))
         if bad is not None:
             nxt = self._bad_value(bad, time, nxt)
-        CTX.ev("S", self.sid, k, time, nxt if isinstance(nxt, (int, type(None))) else repr(nxt))
+        self.ctx.ev("S", self.sid, k, time, nxt if isinstance(nxt, (int, type(None))) else repr(nxt))
         return nxt
 
     def get_data(self, outputs):
         k = self.cur
         sp = self.spec
-        CTX.ev("G", self.sid, k, self.time)
+        self.ctx.ev("G", self.sid, k, self.time)
         if self.finalized:
-            CTX.ev("X", self.sid, "request-after-finalize", "get_data", k)
+            self.ctx.ev("X", self.sid, "request-after-finalize", "get_data", k)
         yield from self._fault_point("get_data", k)
-        if "get_data" in CTX.gate_kinds and CTX.gated:
-            yield CTX.loop.gate((self.sid, "get_data", k))
+        if "get_data" in self.ctx.gate_kinds and self.ctx.gated:
+            yield self.ctx.loop.gate((self.sid, "get_data", k))
         data = {}
         ent = {}
         want = outputs.get("e", [])
@@ -129,12 +131,12 @@ class StubSim(mosaik_api_v3.Simulator):
             data["time"] = self._bad_value(bad, self.time, None)
         if ent:
             data["e"] = ent
-        CTX.ev("D", self.sid, k, self.time, json.dumps(data, sort_keys=True))
+        self.ctx.ev("D", self.sid, k, self.time, json.dumps(data, sort_keys=True))
         return data
 
     def finalize(self):
         self.finalized += 1
-        CTX.ev("F", self.sid)
+        self.ctx.ev("F", self.sid)
 
     # -- helpers ------------------------------------------------------------
     def _bad_value(self, bad, time, nxt):
@@ -160,35 +162,35 @@ class StubSim(mosaik_api_v3.Simulator):
     def _fault_point(self, kind, k):
         f = self.spec.get("fault")
         if f and f["req"] == kind and f["k"] == k:
-            CTX.ev("X", self.sid, "fault", f["kind"], kind, k)
-            yield from CTX.inject_fault(self, f)
+            self.ctx.ev("X", self.sid, "fault", f["kind"], kind, k)
+            yield from self.ctx.inject_fault(self, f)
         return
         yield  # pragma: no cover  (makes this a generator)
 
     def _async_action(self, act, k, time):
         op = act[0]
         if op == "gate":
-            if CTX.gated:
-                yield CTX.loop.gate((self.sid, "mid", k, act[1]))
+            if self.ctx.gated:
+                yield self.ctx.loop.gate((self.sid, "mid", k, act[1]))
         elif op == "set":
             _, dst_full, attr = act
             val = f"{self.sid}{k}s"
-            CTX.ev("AS", self.sid, k, time, dst_full, attr, val)
+            self.ctx.ev("AS", self.sid, k, time, dst_full, attr, val)
             try:
                 yield self.mosaik.set_data({f"{self.sid}.e": {dst_full: {attr: val}}})
-                CTX.ev("AR", self.sid, k, "set", "ok")
+                self.ctx.ev("AR", self.sid, k, "set", "ok")
             except Exception as e:  # noqa: BLE001
-                CTX.ev("AR", self.sid, k, "set", type(e).__name__, _exc_name(e))
+                self.ctx.ev("AR", self.sid, k, "set", type(e).__name__, _exc_name(e))
                 if not act_tolerant(self.spec):
                     raise
         elif op == "get":
             _, src_full, attr = act
-            CTX.ev("AG", self.sid, k, time, src_full, attr)
+            self.ctx.ev("AG", self.sid, k, time, src_full, attr)
             try:
                 res = yield self.mosaik.get_data({src_full: [attr]})
-                CTX.ev("AR", self.sid, k, "get", "ok", json.dumps(res, sort_keys=True))
+                self.ctx.ev("AR", self.sid, k, "get", "ok", json.dumps(res, sort_keys=True))
             except Exception as e:  # noqa: BLE001
-                CTX.ev("AR", self.sid, k, "get", type(e).__name__, _exc_name(e))
+                self.ctx.ev("AR", self.sid, k, "get", type(e).__name__, _exc_name(e))
                 if not act_tolerant(self.spec):
                     raise
         else:
@@ -226,3 +228,66 @@ class DescSim(mosaik_api_v3.Simulator):
 
     def get_data(self, outputs):
         return {}
+
+
+# ---- simulators with old-style signatures / announced versions (C15) -------------------------
+_MISSING = object()
+
+
+class _VerBase(StubSim):
+    """StubSim behaviour; the subclasses below only vary the signatures."""
+
+    def _init(self, sid, spec, got_tr, kwargs):
+        self.ctx.ev("I", sid, bool(got_tr), sorted(kwargs))
+        meta = StubSim.init(self, sid, 1.0, spec)
+        v = spec.get("api_version", "3.0")
+        if v is None:
+            meta.pop("api_version", None)
+        else:
+            meta["api_version"] = v
+        if spec.get("omit_type"):
+            meta.pop("type", None)
+        return meta
+
+    def _step(self, time, inputs, extra):
+        n = len(self.ctx.trace)
+        ret = yield from StubSim.step(self, time, inputs, extra[0] if extra else None)
+        self.ctx.ev("A", self.sid, self.cur, 2 + len(extra))     # arity of the step request
+        return ret
+
+
+def _mk(init_sig, step_sig):
+    ns = {}
+    if init_sig == "tr":
+        def init(self, sid, time_resolution=_MISSING, spec=None):
+            return self._init(sid, spec, time_resolution is not _MISSING, {})
+    elif init_sig == "kw":
+        def init(self, sid, spec=None, **kw):
+            return self._init(sid, spec, "time_resolution" in kw, kw)
+    else:
+        def init(self, sid, spec=None):
+            return self._init(sid, spec, False, {})
+    if step_sig == "a3":
+        def step(self, time, inputs, max_advance):
+            return (yield from self._step(time, inputs, (max_advance,)))
+    elif step_sig == "opt":
+        def step(self, time, inputs, max_advance=_MISSING):
+            return (yield from self._step(time, inputs,
+                                          () if max_advance is _MISSING else (max_advance,)))
+    elif step_sig == "var":
+        def step(self, time, inputs, *a):
+            return (yield from self._step(time, inputs, a))
+    else:
+        def step(self, time, inputs):
+            return (yield from self._step(time, inputs, ()))
+    ns["init"] = init
+    ns["step"] = step
+    return type(f"Ver_{init_sig}_{step_sig}", (_VerBase,), ns)
+
+
+VER_CLASSES = {}
+for _i in ("tr", "kw", "none"):
+    for _s in ("a3", "opt", "var", "a2"):
+        _c = _mk(_i, _s)
+        VER_CLASSES[(_i, _s)] = _c
+        globals()[_c.__name__] = _c
